@@ -90,7 +90,8 @@ def run_cell(prop, cell, opts):
                 aborted = True
                 tb = traceback.format_exc(limit=6)
                 _add_inc(res, 'harness exception %s: %s\n%s' %
-                         (type(e).__name__, e, tb), ctx)
+                         (type(e).__name__, e, tb), ctx,
+                         mark=type(e).__name__)
             except BaseException as e:
                 if type(e).__name__ in ('LoopBudget',):
                     aborted = True
@@ -148,16 +149,23 @@ def run_cell(prop, cell, opts):
     return res
 
 
-def _add_inc(res, reason, ctx=None):
+def _add_inc(res, reason, ctx=None, mark=None):
+    def example():
+        if ctx._check():
+            ex = ctx.model_values(ctx.solver.model())
+            if mark:
+                ex['__harness_exception__'] = mark
+            return ex
+        return None
     for r in res['inconclusive']:
         if r['reason'] == reason:
             r['count'] = r.get('count', 1) + 1
             if ctx is not None and len(r.get('more_examples', [])) < 3 and \
                     r['count'] in (2, 5, 17):
                 try:
-                    if ctx._check():
-                        r.setdefault('more_examples', []).append(
-                            ctx.model_values(ctx.solver.model()))
+                    ex = example()
+                    if ex:
+                        r.setdefault('more_examples', []).append(ex)
                 except BaseException:
                     pass
             return
@@ -165,9 +173,9 @@ def _add_inc(res, reason, ctx=None):
         ent = {'reason': reason, 'count': 1}
         if ctx is not None:
             try:
-                if ctx._check():
-                    ent['example_inputs'] = ctx.model_values(
-                        ctx.solver.model())
+                ex = example()
+                if ex:
+                    ent['example_inputs'] = ex
             except BaseException:
                 pass
         res['inconclusive'].append(ent)
@@ -410,6 +418,17 @@ def finish(prop, mod, tier, seed, repo, cells, results, t0):
             continue
         outs = native_replay(prop, r['cell'], exs, repo)
         for e, o in zip(exs, outs):
+            if o.get('raised') and isinstance(e, dict) and \
+                    e.get('__harness_exception__') == o['raised']:
+                # the symbolic run ended in an exception that no harness
+                # clause expects, and the uninstrumented code raises the
+                # same one on the witness: the code under test lets an
+                # exception escape where the harness expects none
+                o = {'failed': [{'label': 'unexpected-exception-escaped',
+                                 'info': {'exc': o['raised'],
+                                          'msg': o.get('raised_msg')}}]}
+                e = dict((k, v) for k, v in e.items()
+                         if k != '__harness_exception__')
             if o.get('error') or not o.get('failed'):
                 continue
             validated += 1
